@@ -36,14 +36,18 @@ CHECKS = {
              "shortcut incl. its '/.' scan, the fast loop, the general loop with percent_encode<false>, shorten_path, "
              "is_double_dot_path_segment's hash table, is_windows_drive_letter) produces the serialisation of "
              "Spec.pathSegments over the input's segments, for every input, scheme type and path so far (1400 lines); the same "
-             "for url_aggregator::consume_prepared_path in C07; ada's perfect-hash scheme lookup equals list lookup. L1: the "
+             "for url_aggregator::consume_prepared_path in C07; fast_path_sound - parser::try_parse_simple_absolute (the single-pass "
+             "shortcut for normalized absolute http(s) URLs, Model/SimpleAbs.lean) accepts only what the Standard's parser "
+             "accepts and writes exactly the Standard's record (800 lines; both instantiations are called directly on every "
+             "run, the aggregator's buffer and offsets compared with the layout of the modelled fields); ada's perfect-hash "
+             "scheme lookup equals list lookup. L1: the "
              "Lean path builder is run against the real function (and both shorten_path overloads against each other) on "
              "generated calls. Both URL types are compared with the Spec on generated (input, base) pairs: href, all getters, "
              "origin, opaque flag.",
         design_ref="DESIGN.md §5 C01, §11.3",
-        note="partial: of parse_url_impl the path builder, the scheme lookup (and, in C08, the can_parse scanner; in C10, host "
-             "round trips) are modelled and proved; the state machine around them and try_parse_simple_absolute are compared "
-             "with the Spec, not modelled. Spec.parse is a hand transcription of the Standard (trusted, validated by WPT). "
+        note="partial: of parse_url_impl the path builder, the scheme lookup, the fast path try_parse_simple_absolute (and, in "
+             "C08, the can_parse scanner; in C10, parse_host and the IP kernels) are modelled and proved; the state machine "
+             "around them is compared with the Spec, not modelled. Spec.parse is a hand transcription of the Standard (trusted, validated by WPT). "
              "IDNA answers inside the Spec come from ada::idna (C06)."),
 
     "C03": dict(
